@@ -1,6 +1,7 @@
 (* C20 -- Every profile constant prints its profile name; string tables match the types. *)
 From Coq Require Import NArith List String.
-From FitV Require Import Model.Stringer Spec.StringSpec Proofs.StringerProofs Proofs.StringerInstance Gen.TypesData.
+From FitV Require Import Model.Stringer Spec.StringSpec Proofs.StringerProofs Proofs.StringerInstance
+  Proofs.StringSpecProofs Proofs.StringerModelProofs Gen.TypesData.
 Import ListNotations.
 Local Open Scope N_scope.
 Local Open Scope string_scope.
@@ -82,3 +83,41 @@ Print Assumptions C20_string_of_total.
 (* the model's strconv.FormatInt is the spec's decimal numeral *)
 Theorem C20_format_int64_small : forall v, v < 2 ^ 63 -> format_int64 v = decimal v.
 Proof. exact format_int64_small. Qed.
+
+(* GENERIC over all constant sets (not only the checked-in ones): the String
+   method built by the modelled stringer prints Type(n) for every value of the
+   type's width that is not the value of a constant *)
+Theorem C20_stringer_model_other : forall bits tname consts v,
+  bits <= 63 -> (forall c, In c consts -> snd c < 2 ^ bits) -> v < 2 ^ bits -> ~ In v (map snd consts) ->
+  string_of bits (stringer_model tname consts) v = Some (other_text tname v).
+Proof. exact stringer_model_other. Qed.
+Print Assumptions C20_stringer_model_other.
+
+Example C20_stringer_model_other_example :
+  let consts := [("TA", 1); ("TB", 2); ("TC", 2); ("TD", 7); ("TZ", 255)] in
+  (forall c, In c consts -> snd c < 2 ^ 8) /\ ~ In 3 (map snd consts) /\
+  string_of 8 (stringer_model "T" consts) 3 = Some "T(3)" /\
+  string_of 8 (stringer_model "T" consts) 2 = Some "B".
+Proof.
+  cbv zeta. split; [|split; [|split]].
+  - intros c H. simpl in H. repeat (destruct H as [<-|H]; [reflexivity|]). contradiction.
+  - simpl. intuition discriminate.
+  - vm_compute. reflexivity.
+  - vm_compute. reflexivity.
+Qed.
+
+(* the spec means what it says: names_of collects the prefix-less names of the
+   constants with value v; decimal is the canonical numeral of its argument *)
+Theorem C20_names_of_spec : forall T consts v s,
+  In s (names_of T consts v) <-> exists n, In (n, v) consts /\ s = short_name T n.
+Proof. exact names_of_spec. Qed.
+
+Theorem C20_short_name_prefixed : forall T r, short_name T (T ++ r) = r.
+Proof. exact short_name_prefixed. Qed.
+
+Theorem C20_decimal_value : forall n, numeral_value (decimal n) = Some n.
+Proof. exact decimal_value. Qed.
+Print Assumptions C20_decimal_value.
+
+Theorem C20_decimal_canonical : forall n, no_leading_zero (decimal n) = true.
+Proof. exact decimal_canonical. Qed.
